@@ -363,9 +363,9 @@ type c32Trans struct {
 
 type c32Stats struct {
 	States, Transitions, Terminals, Panics, Types, Methods, Roots int
-	ParamKinds                                                   map[string]int
-	Unhandled                                                    map[string]int
-	NonStep                                                      map[string]int
+	ParamKinds                                                    map[string]int
+	Unhandled                                                     map[string]int
+	NonStep                                                       map[string]int
 }
 
 // c32walk runs the BFS. visit is called for every executed transition
